@@ -46,6 +46,9 @@ pub struct StressCampaign {
     /// is not "the socket's error". (C12 itself only speaks about the datagram
     /// stream, so there errors are reported as a class, not as a violation.)
     pub judge_errors: bool,
+    /// C05 view: judge only the shape of every datagram (within capacity, whole
+    /// terminated lines of metrics that were emitted), not order or conservation
+    pub framing_only: bool,
 }
 
 struct Tmp(std::path::PathBuf);
@@ -316,7 +319,7 @@ impl Campaign for StressCampaign {
                 match parsed {
                     Some((t, s)) if t < last_seq.len() => {
                         threads_here.insert(t);
-                        if case.sink != StressSink::Udp {
+                        if case.sink != StressSink::Udp && !self.framing_only {
                             if s <= last_seq[t] {
                                 bad.push(format!("thread {}'s metric #{} left after its metric #{} (program order violated)", t, s, last_seq[t]));
                             }
@@ -337,7 +340,7 @@ impl Campaign for StressCampaign {
             }
         }
         // flush markers: when a thread's flush returned Ok, its earlier metrics had been written
-        if case.sink == StressSink::Spy && bad.is_empty() {
+        if case.sink == StressSink::Spy && bad.is_empty() && !self.framing_only {
             let mut pos: HashMap<&str, usize> = HashMap::new();
             for (di, d) in stream.iter().enumerate() {
                 if let Ok(text) = std::str::from_utf8(d) {
@@ -367,6 +370,9 @@ impl Campaign for StressCampaign {
             }
         }
         for a in acked.iter().flatten() {
+            if self.framing_only {
+                break;
+            }
             match seen.get(a.as_str()).copied().unwrap_or(0) {
                 1 => {}
                 0 => {
